@@ -19,6 +19,7 @@ THEOREMS = {
     "C11": ["C11_crash_states", "C11_read_any_header", "C11_crash_prefix", "C11_torn_length_monotone"],
     "C16": ["C16_rings", "C16_vertices", "C16_closed", "C16_orientation", "C16_idempotent", "C16_multipatch"],
     "C17": ["C17_requests", "C17_index_requests", "C17_record_requests"],
+    "C08": ["C08_rejected_call", "C08_history", "C08_pairs", "C08_pairs_spec"],
     "C03": ["C03_record", "C03_decodes_conformant"],
     "C09": ["C09_finalize_irrelevant", "C09_files", "C09_finalize_complete", "C09_clean_finalize_silent"],
     "C10": ["C10_reject", "C10_erase"],
@@ -31,7 +32,8 @@ THEOREMS = {
 # theorems whose statement mentions the orientation test (Flocq binary64 arithmetic) inherit the four
 # classical-reals axioms of the standard library through Flocq's definitions
 FLOCQ = set(STDLIB_AXIOMS_ALLOWED)
-AXIOMS = {"C17_requests": FLOCQ, "C17_index_requests": FLOCQ, "C17_record_requests": FLOCQ,
+AXIOMS = {"C08_pairs": FLOCQ,
+          "C17_requests": FLOCQ, "C17_index_requests": FLOCQ, "C17_record_requests": FLOCQ,
           "C16_rings": FLOCQ, "C16_vertices": FLOCQ, "C16_closed": FLOCQ, "C16_orientation": FLOCQ, "C16_idempotent": FLOCQ,
           "C16_multipatch": FLOCQ,
           "C11_read_any_header": FLOCQ, "C11_crash_prefix": FLOCQ,
